@@ -13,7 +13,7 @@ variables of the packages this property's code lives in, the functions (other th
 assign to them or call methods on them, and the fields of the property's struct types. The model is
 a pure function of the arguments and of these fields; a new variable, writer or field is state the
 model does not know of. -/
-def stateC03 : List (String × String) := [("globals:stats", "ErrMismatchedSamples ErrSampleSize ErrSamplesEqual ErrZeroVariance MannWhitneyExactLimit MannWhitneyTiesExactLimit StdNormal _KDEBoundaryMethod_index _KDEKernel_index _LocationHypothesis_index inf nan quantileCIApproxThreshold"), ("globals:mathx", "nan smallFact"), ("globalwrites:stats", "MannWhitneyUTest:StdNormal.CDF"), ("globalwrites:mathx", ""), ("fields:stats.MannWhitneyUTestResult", "N1:int N2:int U:float64 AltHypothesis:LocationHypothesis P:float64"), ("fields:stats.UDist", "N1:int N2:int T:[]int"), ("fields:stats.NormalDist", "Mu:float64 Sigma:float64")]
+def stateC03 : List (String × String) := [("globals:stats", "ErrMismatchedSamples ErrSampleSize ErrSamplesEqual ErrZeroVariance MannWhitneyExactLimit MannWhitneyTiesExactLimit StdNormal _KDEBoundaryMethod_index _KDEKernel_index _LocationHypothesis_index inf nan quantileCIApproxThreshold"), ("globals:mathx", "nan smallFact"), ("globalwrites:stats", "MannWhitneyUTest:StdNormal.CDF"), ("globalwrites:mathx", ""), ("fields:stats.MannWhitneyUTestResult", "N1:int N2:int U:float64 AltHypothesis:LocationHypothesis P:float64"), ("fields:stats.UDist", "N1:int N2:int T:[]int"), ("fields:stats.NormalDist", "Mu:float64 Sigma:float64"), ("funcs:stats", "n=117 fnv64a=80a50d6f629bd21b"), ("funcs:mathx", "n=13 fnv64a=721c592b642cc9ba")]
 
 /-- the source has exactly the package-level variables, writers and struct fields the model accounts for -/
 theorem state_C03 : holdsAll stateC03 = true := by decide +kernel
